@@ -30,8 +30,8 @@ type Script struct {
 
 // Step vocabulary (see child.go for the exact semantics):
 //
-//	sub c [async]        start ServeHTTP for client c; sync: wait for its first ping (or exit)
-//	awaitsub c           wait for c's first ping (or exit)
+//	sub c [async]        start ServeHTTP for client c; sync: wait until the response started (first bytes or flush) or it exited
+//	awaitsub c           wait until c's response started (or exit)
 //	cancel c [async]     cancel c's request context; sync: wait until ServeHTTP returned
 //	awaitexit c          wait until c's ServeHTTP returned
 //	send e [async]       Handler.Send("message", id(e)); sync: wait until Send returned
@@ -310,8 +310,35 @@ func (b *builder) epFail(r *rand.Rand) {
 	b.op("awaitexit", c)
 }
 
-// randomScript composes 2..5 episodes over one handler.
-func randomScript(r *rand.Rand, idx int) Script {
+// sitesNeeded lists the hook sites a script parks goroutines at.
+func (s Script) sitesNeeded() []string {
+	seen := map[string]bool{}
+	var out []string
+	for _, st := range s.Steps {
+		if (st.Op == "gate" || st.Op == "waitparked" || st.Op == "release") && !seen[st.Site] {
+			seen[st.Site] = true
+			out = append(out, st.Site)
+		}
+	}
+	return out
+}
+
+// ProbeScript: one client, one broadcast. Its hook counts tell which of the
+// yield points the implementation under test still has.
+func ProbeScript() Script {
+	b := newBuilder("probe", 1, 1)
+	b.sub(false)
+	e := b.send(false)
+	b.add(Step{Op: "awaitrecv", C: 0, E: e})
+	b.cancel(0, false)
+	return b.s
+}
+
+// randomScript composes 2..5 episodes over one handler. Episodes that need a
+// hook site the implementation does not have (reach[site] == false) are
+// replaced by ungated churn; with every site present the scripts are exactly
+// those of the seed.
+func randomScript(r *rand.Rand, idx int, reach map[string]bool) Script {
 	b := newBuilder("random", 4+r.Intn(9), 3+r.Intn(8))
 	for i := r.Intn(3); i > 0; i-- {
 		b.sub(false)
@@ -321,11 +348,19 @@ func randomScript(r *rand.Rand, idx int) Script {
 		case 0, 1, 2:
 			b.epFree(r)
 		case 3, 4, 5:
-			b.epGated(r)
+			if reach["deliver"] {
+				b.epGated(r)
+			} else {
+				b.epFree(r)
+			}
 		case 6:
 			b.epStall(r)
 		case 7:
-			b.epRegGate(r)
+			if reach["registered"] {
+				b.epRegGate(r)
+			} else {
+				b.epFree(r)
+			}
 		case 8:
 			b.epFail(r)
 		}
